@@ -8,6 +8,7 @@ import OttoVerif.C03.LitSpec
 import OttoVerif.C03.LitLemmas
 import OttoVerif.C03.Asi
 import OttoVerif.C03.NumTokLemmas
+import OttoVerif.C03.Trivia
 namespace OttoVerif.C03.Thm
 open OttoVerif.C03 OttoVerif.C03.Spec OttoVerif.C03.Lem
 
@@ -190,5 +191,67 @@ theorem strlit_value_ascii_units (lit us : List Nat) (hasc : ∀ c ∈ lit, c < 
 /-- non-vacuity: `a\n\x41\u00e9\101\0\<LF>\q` satisfies the hypotheses -/
 example : let lit := Str.ofString "a\\n\\x41\\u00e9\\101\\0\\\nz\\q"
     (lit.all (· < 128)) = true ∧ (LitSpec.sv (lit.length + 1) lit).isSome = true := by decide +kernel
+
+/-- generalised: with any starting state (insertSemicolon, implicitSemicolon) the scan loop over trivia ends with
+    implicitSemicolon = imp ∨ (ins ∧ the trivia counts as a LineTerminator per 7.4) — in particular a block comment that
+    contains a line terminator is one, in every parser mode (the StoreComments branch reads the same characters) -/
+theorem trivia_go (n : Nat) : ∀ (ins imp : Bool) (cs : List Nat),
+    Trivia.modelGo n ins imp cs = (Trivia.specGo n cs).map fun b => imp || (ins && b) := by
+  induction n with
+  | zero => intro ins imp cs; simp [Trivia.modelGo, Trivia.specGo]
+  | succ n ih =>
+    intro ins imp cs
+    cases cs with
+    | nil => simp [Trivia.modelGo, Trivia.specGo]
+    | cons c r =>
+      simp only [Trivia.modelGo, Trivia.specGo]
+      by_cases hw : Trivia.isWS c = true
+      · simp only [hw, if_true]; exact ih ins imp r
+      · simp only [hw]
+        by_cases hl : Trivia.isLT c = true
+        · simp only [hl, if_true]
+          cases ins
+          · simp [ih, Option.map_map, Function.comp_def]
+          · simp [ih, Option.map_map, Function.comp_def]
+        · simp only [hl]
+          by_cases h2 : c = 0x2F
+          · simp only [h2, beq_self_eq_true, if_true]
+            match r with
+            | [] => simp
+            | d :: r' =>
+              by_cases hd : d = 0x2F
+              · subst hd; simp only []; exact ih ins imp _
+              · by_cases he : d = 0x2A
+                · subst he
+                  simp only []
+                  cases hb : Trivia.blockRest r' false with
+                  | none => simp
+                  | some p =>
+                    obtain ⟨seen, r''⟩ := p
+                    simp only []
+                    cases ins <;> cases seen <;> simp [ih, Option.map_map, Function.comp_def]
+                · have : ∀ (α : Type) (x y z : α), (match d :: r' with | 0x2F :: _ => x | 0x2A :: _ => y | _ => z) = z := by
+                    intro α x y z; split <;> simp_all
+                  simp_all
+          · have : (c == 0x2F) = false := by simpa using h2
+            simp [this]
+
+/-- LINE TERMINATORS IN TRIVIA (ES5 7.4): after a token that may end a statement (insertSemicolon set) the scanner reports
+    implicitSemicolon for the next token exactly when the white space and comments between them contain a LineTerminator or
+    a MultiLineComment that contains one. -/
+theorem trivia_nl_eq (cs : List Nat) : Trivia.modelNL true cs = Trivia.specNL cs := by
+  unfold Trivia.modelNL Trivia.specNL
+  rw [trivia_go]
+  cases Trivia.specGo (cs.length + 1) cs <;> simp
+
+/-- … and never when the previous token cannot end a statement -/
+theorem trivia_nl_no_insert (cs : List Nat) : Trivia.modelNL false cs = (Trivia.specNL cs).map fun _ => false := by
+  unfold Trivia.modelNL Trivia.specNL
+  rw [trivia_go]
+  cases Trivia.specGo (cs.length + 1) cs <;> simp
+
+/-- `/* a⏎b */` counts, `/* c */ // d` does not, `/* c` is not trivia -/
+example : Trivia.specNL (Str.ofString " /* a\nb */ ") = some true ∧ Trivia.specNL (Str.ofString " /* c */ // d") = some false ∧
+    Trivia.specNL (Str.ofString "/* c") = none ∧ Trivia.modelNL true (Str.ofString "/*\r*/") = some true := by decide +kernel
 
 end OttoVerif.C03.Thm
